@@ -444,6 +444,19 @@ def verify(S):
     # detection: the find_islands contract of C02 (mask = finite and |image - bkg| / rms >= flood, seeds, own pixels)
     from contracts import c02
     c02.verify(S)
+    # the reported uncertainties: Fisher-matrix composition and stderr indexing (C04); the spherical primitives behind the pixel beam and
+    # the sky ellipse (C17); the pixel beam of the image (C16 __init__): contracts of those properties, re-run here
+    from contracts import c04, c16, c17
+    for name, fn in (("fitting.lmfit_jacobian", c04.t_lmfit_jacobian), ("fitting.covar_errors", c04.t_covar_errors),
+                     ("angle_tools.gcd", c17.t_gcd), ("angle_tools.bear", c17.t_bear), ("angle_tools.translate", c17.t_translate),
+                     ("wcs_helpers.WCSHelper.__init__", c16.t_init), ("wcs_helpers.WCSHelper.ellipses", c16.t_ellipses)):
+        if S.only and S.only not in name:
+            continue
+        ctx = Ctx(S, name)
+        try:
+            ctx.explore(fn)
+        except Undecided as u:
+            S.undecided.append("%s: %s" % (name, u))
     targets = [("source_finder.SourceFinder.find_sources_in_image[detection]", t_detection_call),
                ("fitting.ntwodgaussian_lmfit", t_model), ("fitting.do_lmfit", t_residual),
                ("source_finder.SourceFinder.estimate_lmfit_parinfo[start]", t_start_bounds),
